@@ -64,8 +64,77 @@ def run_chunk(prop, idx, cases, root, timeout):
                         results.append(json.loads(line))
                     except Exception:
                         pass
+    reach = {}
+    if os.path.exists(out + ".reach"):
+        try:
+            with open(out + ".reach") as fh:
+                reach = json.load(fh)
+        except Exception:
+            reach = {}
     shutil.rmtree(d, ignore_errors=True)
-    return idx, status, err, results, len(cases)
+    return idx, status, err, results, len(cases), reach
+
+
+def executable_lines(path):
+    """{qualname: set(lines)} of the functions of a source file, from the compiled code objects (what LINE events can report)."""
+    with open(path) as fh:
+        src = fh.read()
+    top = compile(src, path, "exec")
+    per = {}
+    stack = [top]
+    while stack:
+        co = stack.pop()
+        lines = set(ln for _, _, ln in co.co_lines() if ln is not None)
+        nested = [c for c in co.co_consts if hasattr(c, "co_code")]
+        stack.extend(nested)
+        if co is not top:
+            lines.discard(co.co_firstlineno)
+            per.setdefault(co.co_qualname, set()).update(lines)
+    return per
+
+
+def reach_report(prop, reach):
+    """Which of the functions anchored for this property (vlib/anchors.json) did the workload execute, and how much of them."""
+    try:
+        with open(os.path.join(VERIF_DIR, "vlib", "anchors.json")) as fh:
+            anchors = json.load(fh)["anchors"].get(prop, [])
+    except Exception:
+        return None
+    repo = repo_dir()
+    cache = {}
+    per_fn = {}
+    unreached, missing = [], []
+    tot = hit = 0
+    for an in anchors:
+        f = an["file"]
+        rel = f.split("/", 1)[1]
+        if f not in cache:
+            try:
+                cache[f] = executable_lines(os.path.join(repo, f))
+            except Exception:
+                cache[f] = {}
+        q = an["qualname"].replace(".__", "._%s__" % an["qualname"].split(".")[0]) if False else an["qualname"]
+        # nested functions / comprehensions carry '<locals>' in co_qualname: collect everything below the anchored function
+        lines = set()
+        for name, ls in cache[f].items():
+            if name == q or name.startswith(q + ".<locals>"):
+                lines |= ls
+        if not lines:
+            missing.append("%s:%s" % (rel, q))
+            continue
+        h = lines & set(reach.get(rel, []))
+        tot += len(lines)
+        hit += len(h)
+        per_fn["%s:%s" % (rel, q)] = [len(h), len(lines)]
+        if not h:
+            unreached.append("%s:%s" % (rel, q))
+    return {"anchored_functions": len(per_fn), "anchored_functions_reached": len(per_fn) - len(unreached),
+            "anchored_lines_executable": tot, "anchored_lines_executed": hit,
+            "anchored_functions_not_reached": unreached, "anchored_functions_not_in_current_tree": missing,
+            "per_function_lines_executed_of_executable": per_fn,
+            "repository_lines_executed": {f: len(v) for f, v in sorted(reach.items())},
+            "method": "sys.monitoring LINE events in every worker (each location disabled after its first hit); anchored functions "
+                      "= innermost functions overlapping the line ranges of properties.jsonl at the pinned commit"}
 
 
 def load_known():
@@ -119,12 +188,15 @@ def main(argv=None):
     root = scratch_root()
     all_results = []
     shard_problems = []
+    reach_all = {}
     try:
         with cf.ThreadPoolExecutor(max_workers=a.jobs) as ex:
             futs = [ex.submit(run_chunk, prop, i, ch, root, timeout) for i, ch in enumerate(chunks) if ch]
             for f in cf.as_completed(futs):
-                idx, status, err, results, n = f.result()
+                idx, status, err, results, n, rch = f.result()
                 all_results.extend(results)
+                for rf, rl in rch.items():
+                    reach_all.setdefault(rf, set()).update(rl)
                 if status != "ok" or len(results) != n:
                     shard_problems.append({"shard": idx, "status": status, "got": len(results), "expected": n,
                                            "stderr": err[-1500:],
@@ -223,6 +295,7 @@ def main(argv=None):
                 "case_wall_s_max": max(walls) if walls else 0.0,
                 "case_wall_s_sum": sum(walls),
                 "repo": repo_dir(),
+                "reach": reach_report(prop, {k: sorted(v) for k, v in reach_all.items()}),
             },
             "assumptions": list(getattr(mod, "ASSUMPTIONS", [])),
             "wall_s": wall,
@@ -233,6 +306,10 @@ def main(argv=None):
         with open(evp, "w") as fh:
             json.dump(tojson(ev), fh, indent=1)
 
+    if os.environ.get("VERIF_REACH_DUMP"):
+        os.makedirs(os.environ["VERIF_REACH_DUMP"], exist_ok=True)
+        with open(os.path.join(os.environ["VERIF_REACH_DUMP"], "%s.%s.json" % (prop, tier)), "w") as fh:
+            json.dump({k: sorted(v) for k, v in reach_all.items()}, fh)
     nt = len(hashes_nontrivial)
     print("%s tier=%s seed=%d cases=%d distinct_nontrivial=%d monitors=%s wall=%.1fs verdict=%s" % (
         prop, tier, a.seed, len(all_results), nt,
